@@ -37,6 +37,8 @@ def cases(tier, seed):
         # only groups of at most 6 children are exported in that form here
         if in_fragment(m) and not any(sem.kind(a, b, len(k)) == 'cardinality' and len(k) > 6 for (_p, a, b, k) in sh.relations(m)):
             yield ('S', m)
+    for t in families.long_chains():
+        yield ('SK', cm.on_carrier([t]))
     for t in families.deep_trees():
         yield ('SK', cm.on_carrier([t]))
     # identifiers that contain operator keywords as substrings (both exports)
@@ -58,6 +60,21 @@ def cases(tier, seed):
     for t1 in cm.k1()[::5]:
         for t2 in cm.k1()[::5]:
             yield ('SK', cm.on_carrier([t1, t2]))
+    # ten and more constraints (two-digit clause / formula numbers), a multi-clause one first, in the middle, last
+    multi = [('EQUIVALENCE', 'x', ('AND', 'y', 'z')), ('XOR', 'x', 'y'), ('AND', ('OR', 'x', 'y'), ('OR', ('NOT', 'x', None), 'z'))]
+    single = [('REQUIRES', 'x', 'y'), ('EXCLUDES', 'y', 'z'), ('OR', 'x', ('OR', 'y', 'z')), ('IMPLIES', 'z', 'x')]
+    for n in (10, 11, 12, 21):
+        for mi, mt in enumerate(multi):
+            for pos in (0, n // 2, n - 1):
+                trees = [single[(i + mi) % len(single)] for i in range(n)]
+                trees[pos] = mt
+                yield ('SK', cm.on_carrier(trees))
+    # [a..b] groups too wide for the exhaustive comparison of the propositional export: every selection of the
+    # group's members is judged by its number of selected members (thorough: all 2^n, quick: two per count)
+    for (n, a, b) in ((14, 5, 8), (14, 0, 13), (15, 7, 7), (16, 2, 3)) if tier == 'thorough' else ((14, 5, 8),):
+        parts = 16 if tier == 'thorough' else 1
+        for part in range(parts):
+            yield ('WG', n, a, b, part, parts)
 
 
 def plan(tier):
@@ -74,21 +91,28 @@ def plan(tier):
     }
 
 
-describe = cm.describe_model_case
+def describe(case):
+    if case[0] == 'WG':
+        return 'WG:[%d..%d] group of %d leaves (part %d of %d)' % (case[2], case[3], case[1], case[4] + 1, case[5])
+    return cm.describe_model_case(case)
 
 
 def reduce(case):
+    if case[0] == 'WG':
+        return
     for c in cm.reduce_model_case(case):
         if in_fragment(c[1]):
             yield c
 
 
 def normalize(case):
+    if case[0] == 'WG':
+        return case
     return (case[0], sh.normalize_names(case[1], sp.NAME_POOL))
 
 
 def nontrivial(case):
-    return cm.has_group_or_ctc(case[1])
+    return case[0] == 'WG' or cm.has_group_or_ctc(case[1])
 
 
 def selftest():
@@ -97,7 +121,51 @@ def selftest():
     plexp.selftest()
 
 
+def _wide_group(case):
+    import itertools
+    _k, n, a, b, part, parts = case
+    kids = ['G%02d' % i for i in range(n)]
+    model = sh.M(sh.F('Fa', [sh.R(a, b, [sh.F(k) for k in kids])]))
+    fm, fails = cm.built(model)
+    if fails:
+        return fails
+    try:
+        text = PLWriter(engine.tmppath('wg.exp'), fm).transform()
+        forms = plexp.parse_lines(text)
+        engine.tick()
+    except plexp.ExpError as exc:
+        return [Fail('pl-uninterpretable', str(exc)[:200])]
+    except Exception as exc:  # noqa: BLE001
+        return [Fail('pl-write-raises:%s' % type(exc).__name__, str(exc)[:200])]
+    used = set()
+    for f in forms:
+        plexp.idents(f, used)
+    if used != set(kids) | {'Fa'}:
+        return [Fail('pl-feature-missing' if set(kids) | {'Fa'} - used else 'pl-unknown-features', sorted(used ^ (set(kids) | {'Fa'}))[:5])]
+    if parts == 1:
+        subsets = []
+        for k in range(n + 1):
+            subsets.append(kids[:k])
+            subsets.append(kids[n - k:])
+            subsets.append(kids[k // 2:k // 2 + k])
+    else:
+        subsets = [[kid for kid, bit in zip(kids, bits) if bit]
+                   for i, bits in enumerate(itertools.product((False, True), repeat=n)) if i % parts == part]
+    for sub in subsets:
+        for root in (True, False):
+            sel = set(sub) | ({'Fa'} if root else set())
+            want = root and a <= len(sub) <= b
+            got = all(plexp.ev(f, sel) for f in forms)
+            engine.tick()
+            if got != want:
+                return [Fail('pl-configurations', {'selected members': len(sub), 'root selected': root, 'export accepts': got, 'model accepts': want})]
+    engine.validated()
+    return []
+
+
 def check(case):
+    if case[0] == 'WG':
+        return _wide_group(case)
     model = case[1]
     fm, fails = cm.built(model)
     if fails:
@@ -167,4 +235,6 @@ def _diff(got, want):
 
 
 def outcome(case):
+    if case[0] == 'WG':
+        return 'wide-group'
     return 'cfgs=%d' % len(sem.configs(case[1]))
